@@ -308,7 +308,10 @@ func (p *Packer) packWalkFn(root, src, dst string, tarW *tar.Writer, meta *Meta,
 					}
 				}
 				active := append(active[:len(active):len(active)], resolved.info)
-				return filepath.Walk(resolved.absTarget, p.packWalkFn(root, resolved.absTarget, path, tarW, meta, ignoreRules, active))
+				// The nested walk maps paths below the target onto the place this
+				// link has in the archive, which inside an already dereferenced
+				// directory is not where the link sits on disk.
+				return filepath.Walk(resolved.absTarget, p.packWalkFn(root, resolved.absTarget, filepath.Join(root, subpath), tarW, meta, ignoreRules, active))
 			}
 
 			// Like special files inside the source directory, a fifo, socket
